@@ -588,6 +588,26 @@ def _confirm(body, params, env, path, cl, model, rel_tol, timeout_ms):
             except Exception:
                 pass
     if not env.actuals:
+        if env.nominals:
+            # a counterexample close to the typical input: pin as many inputs as possible to their nominal value
+            # (greedy; every step is a solver query), so that parts of the program the claim does not depend on
+            # see an ordinary input when the counterexample is replayed
+            base = list(path.pc) + [z3.Not(cl.expr)]
+            fixed = []
+            m_near = None
+            for k, a in env.nominals.items():
+                if k not in env.inputs or not z3.is_real(env.inputs[k]):
+                    continue
+                c = env.inputs[k] == z3.RealVal(fractions.Fraction(repr(float(a))))
+                r, m2 = core.check_sat(base + fixed + [c], 5000)
+                if r == 'sat':
+                    fixed.append(c)
+                    m_near = m2
+            if m_near is not None:
+                try:
+                    cands.append(('model-near-nominal', _model_inputs(m_near, env.inputs)))
+                except Exception:
+                    pass
         cands.append(('model', vals))
     else:
         # the harness runs from an abstract pre-state (DESIGN 2.5): a counterexample that cannot be
@@ -597,6 +617,8 @@ def _confirm(body, params, env, path, cl, model, rel_tol, timeout_ms):
     for how, v in cands:
         st, detail = replay_once(body, v, params, cl.name, rel_tol)
         tried.append((how, st))
+        if os.environ.get('VERIF_DEBUG_CEX'):
+            print('CEX', cl.name, how, st, {k: float(x) for k, x in v.items()}, str(detail)[:300], flush=True)
         if st == 'violated':
             out.update(status='reproduced', how=how, detail=detail, values=v,
                        inputs={k: float(x) for k, x in list(v.items())[:40]})
